@@ -30,7 +30,7 @@ RESTS = ('4r', '8r', '2r', '1r', '16r', '8.r', '4.r', '2.r', '16.r', '32r', '1.r
          '48r', '0r', '00r', '128r', '64.r', '12.r', '6.r', '3.r', '24.r', '48.r')
 
 
-def build(M, sigset, ks, text_spine, split_m, nested, kinds, final, change_m=0, open_split=False):
+def build(M, sigset, ks, text_spine, split_m, nested, kinds, final, change_m=0, open_split=False, gcomments=0):
     """Rows of a score: M measures each opened by a barline, 2 data rows per measure.
     split_m: measure (1-based, 0 = none) in which spine 0 splits and re-joins (nested: splits twice, joins stepwise);
     kinds[m]: what spine 0 holds in measure m; change_m: measure before which a clef change row is inserted (tracked class);
@@ -56,6 +56,8 @@ def build(M, sigset, ks, text_spine, split_m, nested, kinds, final, change_m=0, 
         if change_m == m:
             rows.append(['*clefC1'] + ['*'] * (ks - 1 + live_extra) + (['*'] if text_spine else []))
         rows.append(['=%d' % m] * (ks + live_extra) + (['=%d' % m] if text_spine else []))
+        if gcomments & 1:
+            rows.append(['!! section %d' % m])          # a global comment directly after the barline
         k0 = kinds[(m - 1) % len(kinds)]
 
         def data():
@@ -88,7 +90,12 @@ def build(M, sigset, ks, text_spine, split_m, nested, kinds, final, change_m=0, 
         live_extra = 0
     if final:
         rows.append(['=='] * ks + (['=='] if text_spine else []))
+        if gcomments & 1:
+            rows.append(['!! the end'])
     rows.append(['*-'] * ks + (['*-'] if text_spine else []))
+    if gcomments & 2:
+        rows.insert(0, ['!!!COM: Anon'])
+        rows.append(['!!!ENC: x'])
     return rows
 
 
@@ -145,6 +152,13 @@ def _shapes(tier, tracked=False):
                             continue         # quick: every second combination of the plain shapes
                         for final in (0, 1):
                             out.append((M, sigset, ks, ts, split_m, nested, kinds, final))
+    # global comments directly after every barline / around the score
+    for M in (2, 3):
+        for ks, ts in ((1, 0), (2, 0), (1, 1)):
+            for split_m in (0, 1):
+                for final in (0, 1):
+                    for gc in (1, 3):
+                        out.append((M, (M + ks) % len(SIGSETS), ks, ts, split_m, 0, ('notes',), final, 0, False, gc))
     return out
 
 
@@ -250,7 +264,7 @@ OBLIGATIONS = [
        symbolic='from_measure, to_measure (integers, assumed 1 <= a <= b <= M)', enumerated='score shape',
        bounds={'quick': 'M in {2,3} x 2 of 4 signature sets per M (clef/key/meter/meter symbol, per-spine clefs) x {1 kern, 2 kern, kern+text} x {no split, split+join in measure 1 / 2, '
                         'nested split with stepwise join in measure 1 / M} x spine-0 content {notes, chords/notes alternating, notes/chords/rests, chords only} x final barline '
-                        '(every second plain combination)', 'thorough': 'M in {2,3,4}, all combinations'}, describe=_desc),
+                        '(every second plain combination); + global comments directly after every barline / around the score', 'thorough': 'M in {2,3,4}, all combinations'}, describe=_desc),
     Ob(id='C08.b', fn=ob_b, title='tracked classes: mid-score signature change, excerpt starting inside a split, non-kern spines in the excerpt',
        shard_of=lambda t, a, b: t, shards={'quick': 4, 'thorough': 4}, budget_s={'quick': 150, 'thorough': 600},
        witnesses=[{'t': 0, 'a': 1, 'b': 1}], min_confirmed=20, enumerated='tracked shape, a, b',
